@@ -383,6 +383,11 @@ func (hp *HTTPProxy) pacProxy(r *http.Request) (*url.URL, error) {
 		return nil, err
 	}
 
+	switch p.Mode {
+	case pac.SOCKS, pac.SOCKS4:
+		return nil, fmt.Errorf("unsupported PAC proxy type %s", p.Mode)
+	}
+
 	proxyURL := p.URL()
 
 	// do not attach proxy credentials if we are using Kerberos
